@@ -74,6 +74,7 @@ type lbEngine struct {
 	scanFns    map[string]bool // functions whose loops are byte scans: checked for unit steps and exhaustive exits
 	progress   bool            // C03/R7: every loop iteration advances the cursor or a counter
 	tiling     bool            // C13/R4: track the Space/Raw/Pos/End stores of tokens and comments
+	tokProg    bool            // C13/R6: every return of the token readers has consumed at least one byte (or is at <eof>)
 	bytes      bool            // C03/R9: track what is known about single bytes of the buffer
 	inlineAlso map[string]bool // with shallow: cursor-moving methods that are followed all the same
 	foldEq     bool            // C16/R3: char.EqualFold returns true only for equal lengths, after the last index
@@ -490,6 +491,7 @@ type lbRet struct {
 	st   *lstate
 	vals []ssa.Value
 	in   *lbInst
+	ret  *ssa.Return
 }
 
 const lbMaxDepth = 12
@@ -1261,6 +1263,50 @@ func (e *lbEngine) refine(in *lbInst, st *lstate, cond ssa.Value, pol bool) *lst
 						return ns
 					}
 				}
+				if e.bytes && isByteType(x.X.Type()) {
+					// val OP c  /  c OP val
+					holds := func(a, b int) bool {
+						switch op {
+						case token.LSS:
+							return a < b
+						case token.LEQ:
+							return a <= b
+						case token.GTR:
+							return a > b
+						case token.GEQ:
+							return a >= b
+						}
+						return true
+					}
+					if op == token.LSS || op == token.LEQ || op == token.GTR || op == token.GEQ {
+						if c, ok := e.byteConst(in, x.Y); ok {
+							if aid, ok := e.at.byKey[x.X]; ok {
+								if idx, ok := st.valIdx(aid); ok {
+									var set bset
+									for b := 0; b < 256; b++ {
+										if holds(b, int(c)) {
+											set.add(byte(b))
+										}
+									}
+									return st.withByte(idx, set)
+								}
+							}
+						}
+						if c, ok := e.byteConst(in, x.X); ok {
+							if aid, ok := e.at.byKey[x.Y]; ok {
+								if idx, ok := st.valIdx(aid); ok {
+									var set bset
+									for b := 0; b < 256; b++ {
+										if holds(int(c), b) {
+											set.add(byte(b))
+										}
+									}
+									return st.withByte(idx, set)
+								}
+							}
+						}
+					}
+				}
 				// a decoded rune that equals a constant other than utf8.RuneError was decoded from at least one
 				// byte: utf8.DecodeRune*(s) returns (RuneError, 0) for an empty s
 				if op == token.EQL {
@@ -1582,7 +1628,7 @@ func (e *lbEngine) execBlock(in *lbInst, b *ssa.BasicBlock, st *lstate, rets *[]
 				}
 			}
 			if rets != nil {
-				*rets = append(*rets, lbRet{st: st, vals: x.Results, in: in})
+				*rets = append(*rets, lbRet{st: st, vals: x.Results, in: in, ret: x})
 			}
 			return nil
 		case *ssa.Panic:
@@ -1748,6 +1794,10 @@ func (e *lbEngine) execCall(in *lbInst, st *lstate, call *ssa.Call) *lstate {
 		}
 		pp := e.prime(e.P)
 		st = st.ge(linAtom(pp), linAtom(e.P)).eliminate(e.at, map[atomID]bool{e.P: true}).renameAll(map[atomID]atomID{pp: e.P})
+		if e.tokProg {
+			h := e.at.get("havoc", "a reader moved the cursor", false)
+			st = st.eliminate(e.at, map[atomID]bool{h: true}).eq(linAtom(h), linConst(1))
+		}
 		return st.with(grow...)
 	}
 	inlinable := callee.Blocks != nil && len(e.frames) < lbMaxDepth && corePkg(fnPkgPath(callee)) && e.inScope(callee)
@@ -1860,6 +1910,11 @@ func (e *lbEngine) inline(in *lbInst, st *lstate, call *ssa.Call, callee *ssa.Fu
 	}
 	// frame rule: facts that mention neither the cursor nor an argument stay with the caller
 	relevant := map[atomID]bool{e.P: true}
+	if e.tokProg {
+		if h, ok := e.at.byKey["havoc"]; ok {
+			relevant[h] = true
+		}
+	}
 	for _, l := range ni.bindLin {
 		for _, t := range l.t {
 			relevant[t.a] = true
@@ -1951,11 +2006,24 @@ func (e *lbEngine) inline(in *lbInst, st *lstate, call *ssa.Call, callee *ssa.Fu
 		e.recorded[memoKey] = true
 	}
 	st = cst
+	var progG atomID
+	if e.tokProg && (callee.Name() == "consumeToken" || callee.Name() == "consumeFieldToken") {
+		progG = e.at.get(ghostFieldKey{callee, "entryPos"}, callee.Name()+".entry.pos", false)
+		st = st.eliminate(e.at, map[atomID]bool{progG: true}).eq(linAtom(progG), linAtom(e.P))
+	}
 	keep := st.atomsOf()
 	keep[e.P], keep[e.N] = true, true
 	e.frames = append(e.frames, lbFrame{fn: callee, call: call})
 	rets := e.run(ni, st)
 	e.frames = e.frames[:len(e.frames)-1]
+	if progG != 0 && e.record {
+		for _, rt := range rets {
+			if rt.st == nil {
+				continue
+			}
+			e.progressAtReturn(rt, callee, progG)
+		}
+	}
 	if e.memo == nil {
 		e.memo = map[string]*lstate{}
 	}
@@ -2574,6 +2642,57 @@ func (e *lbEngine) splitPieceStore(in *lbInst, stp **lstate, x *ssa.Store) bool 
 	return true
 }
 
+// progressAtReturn: C13/R6 at one return of a token reader.
+func (e *lbEngine) progressAtReturn(rt lbRet, callee *ssa.Function, g atomID) {
+	st := rt.st
+	var instr ssa.Instruction = rt.ret
+	if rt.ret == nil {
+		instr = callee.Blocks[0].Instrs[0]
+	}
+	// not judged here: a return that hands over to another reader (its own returns are judged), a return after a reader
+	// that was only summarised as "moves the cursor forward" (judged by C13/R3 and by the deep run of the thorough tier),
+	// and the returns after consumeNumber (whether "0x" or a digit came first is a fact about two values — base and i —
+	// that the domain does not relate; C13/R3 covers that every return of consumeNumber passes skipN)
+	if rt.ret != nil {
+		for _, x := range rt.ret.Block().Instrs {
+			if c, ok := x.(*ssa.Call); ok {
+				if sc := c.Call.StaticCallee(); sc != nil && (sc.Name() == "consumeToken" || sc.Name() == "consumeNumber") {
+					return
+				}
+			}
+		}
+		for _, p := range rt.ret.Block().Preds {
+			for _, x := range p.Instrs {
+				if c, ok := x.(*ssa.Call); ok {
+					if sc := c.Call.StaticCallee(); sc != nil && sc.Name() == "consumeNumber" && len(rt.ret.Block().Instrs) == 1 {
+						return
+					}
+				}
+			}
+		}
+	}
+	if h, ok := e.at.byKey["havoc"]; ok && e.shallow {
+		if !st.proves(e.at, lfact{l: linAtom(h).scale(-1)}) {
+			return
+		}
+	}
+	construct := funcName(callee) + ": a return has consumed at least one byte, or the input is exhausted"
+	atEOF := st.proves(e.at, lfact{l: linAtom(e.P).sub(linAtom(e.N))})
+	adv := linAtom(e.P).sub(linAtom(g)).add(linConst(-1))
+	okk := atEOF || st.proves(e.at, lfact{l: adv})
+	if !okk {
+		// by refutation: no progress contradicts what is known about the bytes
+		if s2 := st.with(lfact{l: linAtom(g).sub(linAtom(e.P))}); s2 == nil || s2.bytesContradict(e.at) {
+			okk = true
+		}
+	}
+	need := linConst(0)
+	if !okk {
+		need = linConst(-1)
+	}
+	e.requireAt(st, callee, instr, "C13/R6", construct+fmt.Sprintf(" [return at %s]", e.w.pos(lastPos(instr.Block()))), []string{"pos - pos at entry >= 1, or pos >= len(Buffer)"}, []lin{need})
+}
+
 // delimiterPanicDead: the "BUG: invalid delimiter" panic of (*Lexer).peekDelimiter is unreachable — decided by
 // interpreting consumeToken with byte facts: the literal readers are entered only after a quote was seen at the offset
 // the cursor is then moved to. Returns the number of calling contexts and the failure details.
@@ -2627,6 +2746,60 @@ func ruleC03R9(w *World, r *Report) {
 		r.bad(rule, construct, w.pos(w.fn(w.Mem, "(*Lexer).peekDelimiter").Pos()), strings.Join(fails, " | "))
 	} else {
 		r.ok(rule, construct, w.pos(w.fn(w.Mem, "(*Lexer).peekDelimiter").Pos()), fmt.Sprintf("the panic is not reached in any of the %d calling contexts", n))
+	}
+}
+
+// ruleC13R6: no token but <eof> is empty.
+func ruleC13R6(w *World, r *Report) {
+	const rule = "C13/R6"
+	r.rule(rule, "every return of (*Lexer).consumeToken and (*Lexer).consumeFieldToken has moved the cursor by at least one byte since entry, or the cursor is at the end of the input (the <eof> arm): no token other than <eof> is empty, and the recovering parser's skip loops reach <eof> — LEXBOUNDS with byte facts (a scan that starts on a byte of its own class runs at least once), callees inlined", 8)
+	defer debug.SetGCPercent(debug.SetGCPercent(1000))
+	nt := w.fn(w.Mem, "(*Lexer).nextToken")
+	if nt == nil {
+		r.errorf("(*Lexer).nextToken not found")
+		return
+	}
+	e := w.newLexBounds()
+	e.bytes, e.tokProg = true, true
+	joinByteRefute = true
+	defer func() { joinByteRefute = false }()
+	e.trace = verboseRule() != "" && verboseRule() != "1" && strings.HasPrefix(rule, verboseRule())
+	if w.tier == "thorough" {
+		// everything inlined from nextToken: the returns of the literal readers are judged as well
+		e.runRoot(nt, map[string]bool{"noPanic": false})
+		e.runRoot(nt, map[string]bool{"noPanic": true})
+	} else {
+		// the scans of consumeToken / consumeFieldToken themselves; other readers only move the cursor forward
+		e.shallow, e.shallowLeaf = true, true
+		for _, name := range []string{"(*Lexer).consumeToken", "(*Lexer).consumeFieldToken"} {
+			root := w.fn(w.Mem, name)
+			if root == nil {
+				r.errorf("%s not found", name)
+				return
+			}
+			e.runRoot(root, map[string]bool{"noPanic": false})
+			e.runRoot(root, map[string]bool{"noPanic": true})
+		}
+	}
+	n := 0
+	for _, ob := range e.results() {
+		if ob.rule != rule {
+			continue
+		}
+		n++
+		if ob.failed == 0 {
+			r.ok(rule, ob.construct, ob.where, fmt.Sprintf("proved in %d context(s)", ob.total))
+		} else {
+			var ds []string
+			for d := range ob.details {
+				ds = append(ds, d)
+			}
+			sort.Strings(ds)
+			r.bad(rule, ob.construct, ob.where, fmt.Sprintf("%d of %d context(s): %s", ob.failed, ob.total, strings.Join(ds, " | ")))
+		}
+	}
+	if n == 0 {
+		r.errorf("no return of the token readers reached")
 	}
 }
 
@@ -2896,7 +3069,19 @@ func (e *lbEngine) runRoot(fn *ssa.Function, bools map[string]bool) {
 	}
 	e.frames = []lbFrame{{fn: fn}}
 	e.record = true
-	e.run(in, st)
+	var progG atomID
+	if e.tokProg && (fn.Name() == "consumeToken" || fn.Name() == "consumeFieldToken") {
+		progG = e.at.get(ghostFieldKey{fn, "entryPos"}, fn.Name()+".entry.pos", false)
+		st = st.eq(linAtom(progG), linAtom(e.P)).eq(linAtom(e.at.get("havoc", "a reader moved the cursor", false)), linConst(0))
+	}
+	rets := e.run(in, st)
+	if progG != 0 {
+		for _, rt := range rets {
+			if rt.st != nil {
+				e.progressAtReturn(rt, fn, progG)
+			}
+		}
+	}
 	e.frames = nil
 }
 
